@@ -876,6 +876,12 @@ func (p *InlineParser) parseEndBracket(state *inlineState, start int) (end int) 
 			End:   label.span.End,
 		}
 		p.finishLink(state, kind, openDelimIndex)
+		// The label may continue on a later line: move on to the line that holds its closing bracket.
+		if i := nodeIndexForPosition(state.unparsed[state.unparsedPos:], label.span.End-1); i >= 0 {
+			state.unparsedPos += i
+		} else {
+			state.unparsedPos = len(state.unparsed)
+		}
 		return linkNode.span.End
 	default:
 		// Shortcut reference link.
